@@ -4,7 +4,7 @@ One Machine executes a scenario: global constructors, vp_setup(), then thread fu
 in K rounds with symbolic context-switch windows), then vp_final().  All control flow is merged
 (block guards), no path enumeration.  See DESIGN.md section 2.
 """
-import bisect, re, sys, collections
+import bisect, re, sys, collections, os
 from . import ir
 from .term import *
 from . import term as T
@@ -103,8 +103,11 @@ class Machine:
         self.rdtsc = []
         self.trace_hook = None
         self.fixed = {}
+        self.optimes = {}; self.pass_no = 0
+        self.loop_hot = collections.Counter()
+        self.tolerant = False
         self.hard_loop_cap = 5000
-        self.pruner = None; self.prune_above = 6
+        self.pruner = None; self.prune_above = 1 << 30; self.prune_loops = False; self.sym_loop_cap = 100
         self._layout()
 
     # ------------------------------------------------------------ layout
@@ -284,7 +287,18 @@ class Machine:
         vs = get_vs(p)
         if vs is None:
             pv = possible_values(p, 64, 600, self.ranges)
+            if pv is None and self.tolerant:
+                self.stats['tolerated_addr'] += 1
+                return []
             if pv is None:
+                if os.environ.get('XSYM_DEBUG'):
+                    def go(x, d=0):
+                        if not isinstance(x, Term): return
+                        pv = possible_values(x, x.w if x.w else 1, 600, self.ranges); vs = get_vs(x)
+                        print(' ' * d, x.op, x.w, None if pv is None else len(pv), None if vs is None else len(vs), T.show(x, 2)[:120], sorted(vs)[:60] if vs else '')
+                        if vs is None and d < 10:
+                            for a in x.args: go(a, d + 1)
+                    go(p)
                 raise Unsupported('symbolic address not enumerable: %s in %s / %s' % (T.show(p, 7), self.where(), what))
             self.stats['enum_addr'] += 1
             cs = [(a, Eq(p, a, 64)) for a in sorted(pv)]
@@ -593,7 +607,7 @@ class Machine:
             return self.builtin(name, args, g, None)
         if self.depth > self.max_depth: raise Unsupported('call depth exceeded at ' + name)
         if self.callstack.count(name) >= 4:
-            self.unwound.append((g, 'recursion ' + name)); return False, self.zero_of(f.ret) if f.ret.k != 'void' else None, False
+            self.unwound.append((self.vis(g)[0], 'recursion ' + name)); return False, self.zero_of(f.ret) if f.ret.k != 'void' else None, False
         self.funcs_encoded[name] += 1
         self.depth += 1; self.callstack.append(name)
         try:
@@ -641,17 +655,26 @@ class Machine:
             # iterations whose continuation was decided concretely are simply executed; only iterations
             # entered under a new symbolic condition count against the unwinding bound U
             if k > 0 and g is not prev: ksym += 1
-            if ksym > U or k >= self.hard_loop_cap:
-                self.unwound.append((g, '%s:%s (U=%d, tid %d)' % (fr.f.name[:80], L.header, U, self.cur.tid)))
+            if ksym > U or k >= (self.hard_loop_cap if g is True else self.sym_loop_cap):
+                kp.append(k); eg, _ = self.vis(g); kp.pop()
+                self.unwound.append((eg, '%s:%s (U=%d, tid %d)' % (fr.f.name[:80], L.header, U, self.cur.tid)))
                 fr.inc.pop(L.header)
                 self.stats['unwound'] += 1
                 break
+            if k in (8, 32, 128, 512, 2048) and g is not True and self.pruner is not None and self.prune_loops:
+                # a long 'concrete' loop under a symbolic guard: the guard may be semantically false (e.g. i != n
+                # after all values of n are exhausted); ask the solver once in a while
+                self.pruner.sync(self.assumptions)
+                if not self.pruner.feasible(g):
+                    fr.inc.pop(L.header); self.stats['loops_cut_infeasible'] += 1
+                    break
             prev = g
             kp.append(k)
             self._region(fr, L)
             kp.pop()
             k += 1
         self.stats['loop_iters'] += k
+        if k > 50: self.loop_hot[(fr.f.name[-60:], L.header, self.cur.tid, self.pass_no)] += k
 
     def _edge(self, fr, src, dstname, g):
         if g is False: return
@@ -798,7 +821,8 @@ class Machine:
                 break
             elif op == 'unreachable':
                 # reached only after noreturn calls; those already turned the guard False
-                self.oblige('unreachable', g, 'unreachable executed in ' + fr.f.name[:80])
+                kp.append(I.idx); eg, _ = self.vis(g); kp.pop()
+                self.oblige('unreachable', eg, 'unreachable executed in ' + fr.f.name[:80])
                 break
             elif op == 'freeze':
                 env[I.dst] = const(I.a, I.ty, env)
@@ -809,6 +833,10 @@ class Machine:
         r = self.typeids.get(ti)
         if r is None: r = self.typeids[ti] = len(self.typeids) + 1
         return r
+
+    def op_event(self, op, begin, eg, key):
+        lst = self.optimes.setdefault((op, begin), [])
+        lst.append((eg, self.pass_no, self.cur.tid))
 
     def event(self, kind, eg, key, I, p):
         if self.trace_hook is not None and eg is not False:
